@@ -341,11 +341,18 @@ func RunCheck(cfg CheckConfig) int {
 		data, _ := json.MarshalIndent(lock, "", " ")
 		os.WriteFile(lockPath, data, 0o644)
 	}
+	oosFuncs := map[string]bool{}
+	for _, f := range oosFails {
+		oosFuncs[f.Func] = true
+	}
 	for _, want := range lock.Properties[cfg.Property] {
 		if !nameSet[want] {
 			fn := want
 			if i := strings.Index(want, "/"); i >= 0 {
 				fn = want[:i]
+			}
+			if oosFuncs[fn] {
+				continue // already reported once as out-of-subset
 			}
 			fails = append(fails, &Failure{Name: want, Func: fn, Kind: "missing", Reason: "obligation of the baseline was not generated (function changed shape, vanished or left the verified subset)"})
 		}
